@@ -143,6 +143,11 @@ func (e *end) Write(b []byte) (int, error) {
 	if e.closed {
 		return 0, errClosed
 	}
+	if e.peer.eof {
+		// written after CloseWrite: dropped, always (whether the other side would still have
+		// seen it used to depend on how far it had read)
+		return len(b), nil
+	}
 	n := len(b)
 	var err error
 	if e.nw < len(e.wscript) {
